@@ -50,7 +50,7 @@ func main() {
 		probe()
 		return
 	}
-	r := mc.Start("C20", "model_checking", 72*time.Second, 26*time.Minute)
+	r := mc.Start("C20", "model_checking", 85*time.Second, 26*time.Minute)
 	r.Assumptions = c20lib.Assumptions
 	if r.Replay != "" {
 		doReplay(r)
